@@ -12,9 +12,10 @@ import (
 
 func init() {
 	fw.Register(&fw.Property{
-		ID:     "C14",
-		Level:  "exploration",
-		Jitter: true,
+		ID:         "C14",
+		Level:      "exploration",
+		Jitter:     true,
+		RaceSample: true,
 		Rule: "abstract annotations of named coding features (forward/reverse, 1-3 segments with split codons, codon_start 1-3, overlapping, slippage joins) rendered both as a GenBank flat file (a..b, join, complement, complement(join), join(complement,...)) and as GFF3 CDS rows sharing an ID with spec-correct phase and ##FASTA; the same FASTA or SAM alignment is run under both and the per-sequence mutation multisets compared; " +
 			"distinct non-trivial = distinct (form, location forms present, strands, split-codon continuation present, codon_start set) of cases whose outputs contain at least one aa record",
 		Assumptions: []string{"mutation lists are compared as sets (duplicate identical records are not judged); isoforms (same gene name and outer bounds, different junction) are generated",
